@@ -8,7 +8,8 @@
   * strings: `strconv.QuoteToASCII`'s encoding of one rune determines its own length and is undone by one step of the
     unquoting loop (`Proofs/QuoteRoundTrip`), so bodies are uniquely decodable up to the closing quote,
   * floats: `FloatPF` (hypothesis; not provable here without a correctness proof of shortest formatting),
-  * the selector quirk (receiver printed twice) is harmless because receivers themselves are prefix-free.
+  * selectors follow their receiver (`-[]>`), method calls and members theirs (`->F(`, `->MV:`): told apart after the
+    prefix-free receiver.
 -/
 import GruleModel.Valid
 import GruleModel.Proofs.QuoteRoundTrip
@@ -461,7 +462,7 @@ theorem pfA (hf : FloatPF) : ∀ (a a' : Atom) (r r' : List Char), validA a = tr
     simp only [validA, Bool.and_eq_true] at hv hv'
     norm_at h
     obtain ⟨_, h0⟩ := pfA hf recv recv' _ _ hv.1.1 hv'.1 h
-    hd_at h0
+    norm_at h0
   -- members
   | .member _ _, .const _, _, _, _, _, h => by norm_at h <;> hd_at h
   | .member _ _, .var _, _, _, _, _, h => by norm_at h <;> hd_at h
@@ -485,8 +486,8 @@ theorem pfA (hf : FloatPF) : ∀ (a a' : Atom) (r r' : List Char), validA a = tr
     simp only [validA, Bool.and_eq_true] at hv hv'
     norm_at h
     obtain ⟨_, h0⟩ := pfA hf recv recv' _ _ hv.1 hv'.1 h
-    hd_at h0
-  -- selectors (the receiver is printed twice)
+    norm_at h0
+  -- selectors
   | .sel _ _, .const _, _, _, _, _, h => by norm_at h <;> hd_at h
   | .sel _ _, .var _, _, _, _, _, h => by norm_at h <;> hd_at h
   | .sel _ _, .call _ _, _, _, _, _, h => by norm_at h <;> hd_at h
@@ -495,20 +496,19 @@ theorem pfA (hf : FloatPF) : ∀ (a a' : Atom) (r r' : List Char), validA a = tr
     simp only [validA, Bool.and_eq_true] at hv hv'
     norm_at h
     obtain ⟨_, h0⟩ := pfA hf recv recv' _ _ hv.1 hv'.1.1 h
-    hd_at h0
+    norm_at h0
   | .sel recv _, .member recv' _, _, _, hv, hv', h => by
     simp only [validA, Bool.and_eq_true] at hv hv'
     norm_at h
     obtain ⟨_, h0⟩ := pfA hf recv recv' _ _ hv.1 hv'.1 h
-    hd_at h0
+    norm_at h0
   | .sel recv idx, .sel recv' idx', r, r', hv, hv', h => by
     simp only [validA, Bool.and_eq_true] at hv hv'
     norm_at h
     obtain ⟨e0, h0⟩ := pfA hf recv recv' _ _ hv.1 hv'.1 h
     subst e0
-    have h1 := List.append_cancel_left h0
-    norm_at h1
-    obtain ⟨e2, h2⟩ := pfE hf idx idx' _ _ hv.2 hv'.2 h1
+    norm_at h0
+    obtain ⟨e2, h2⟩ := pfE hf idx idx' _ _ hv.2 hv'.2 h0
     subst e2
     simp only [List.cons.injEq, true_and] at h2
     exact ⟨rfl, h2⟩
